@@ -192,6 +192,8 @@ func PoolMode(m int)                       {}
 func Adversary(on bool)                    {}
 func MapOrderNondet(on bool)               {}
 func ConcLimit(n int)                      {}
+func RandIntEdges(on bool)                 {}
+func RandIntSmall(on bool)                 {}
 func Redirect(name string, fn interface{}) {}
 func Yield()                               {}
 func NoPreempt(on bool)                    {}
